@@ -37,6 +37,11 @@ def mc(tier, name="backend"):
         info["deeper"] = {"bound": "<= 4 transforms, <= 2 Computes", "states": deep.get("distinct"), "transitions": deep.get("generated"), "holds": deep["no_error"], "wall_s": deep["wall_s"]}
         if not deep["no_error"]:
             return pipes, dict(info, design_violation=True, error_text=deep.get("error_text"))
+    # the arithmetic of chained takes against their meaning on sequences (WindowLaw, ShapeLaw)
+    outw, infow = tlc("WindowMC", "WindowMC.cfg", workers=2)
+    info["window_law"] = {"chains": infow.get("distinct"), "holds": infow["no_error"]}
+    if not infow["no_error"]:
+        return pipes, dict(info, design_violation=True, error_text=infow.get("error_text"))
     out2, info2 = tlc("BackendMC", "BackendMC_unrepaired.cfg", workers=4)
     if info2["no_error"] or "EmittedOk is violated" not in out2:
         raise ToolError("BackendMC on the machine as found (before the F97/F98 repair) no longer finds the take | distinct pipeline: the model has gone vacuous")
